@@ -32,9 +32,11 @@ FocusValid(nodes) ==
 \* containers (by id) whose focus index differs between two snapshots of a structurally unchanged tree
 Moved(pre, post) == {id \in NodeIds(pre) \cap NodeIds(post) : Node(pre, id).leaf = 0 /\ Node(pre, id).nch = Node(post, id).nch
                                                              /\ Node(pre, id).focus # Node(post, id).focus}
-ArrowOnlyToSelectable(pre, post) ==
+\* scrolls = TRUE: the screen is too short to show everything, so a ListBox also uses its focus to scroll past unselectable items
+\* (documented ListBox behaviour; which item it lands on depends on geometry the node table does not carry): ListBox moves are not judged
+ArrowOnlyToSelectable(pre, post, scrolls) ==
   \A id \in Moved(pre, post) :
-     LET c == ChildId(post, id, Node(post, id).focus) IN c = 0 \/ Node(post, c).sel = 1
+     LET c == ChildId(post, id, Node(post, id).focus) IN c = 0 \/ Node(post, c).sel = 1 \/ (scrolls /\ Node(post, id).kind = "ListBox")
 
 SelectableIffChild(nodes, id) ==
   LET nd == Node(nodes, id)
